@@ -269,6 +269,9 @@ pub fn literal_stream(rng: &mut Rng, thorough: bool) -> Vec<TextCase> {
         t.push(format!("d0.{}", big));
         t.push(format!("f{}", big));
         t.push(format!("a.{}", big));
+        t.push(format!("a.0.{}", big));
+        t.push(format!("a.{}.b", big));
+        t.push(format!("[a.b.{} == i1]", big));
         t.push(format!("a + i{}", big));
         t.push(format!("[i{}]", big));
     }
@@ -729,6 +732,10 @@ pub fn judge_texts(prop: &str, stream: &str, rule_text: &str, exhaustive: bool, 
         };
         if imp == "PANIC" {
             push("impl-violates-property", "parsing never panics", format!("{} panic {}", prop, t.tag));
+        } else if mode == "panic" && matches!(t.tag, "literals" | "strlit" | "chars-literals") && !m.unanswered && (imp.starts_with("(ok") || imp.starts_with("OK")) && !(m.reply.starts_with("(ok") || m.reply.starts_with("OK")) {
+            // C06's second clause, on the literal families: what the reference rejects (a numeral or list index out of
+            // range, an unknown escape, an escape that denotes no character) is a parse error
+            push("impl-violates-property", "an out-of-range numeral or list index, or a malformed escape, is reported as a parse error", format!("{} accepts-malformed-literal {}", prop, t.tag));
         } else if mode == "full" && !m.unanswered && imp != &m.reply {
             let what = if imp.starts_with("(ok") != m.reply.starts_with("(ok") && imp.starts_with("OK") == m.reply.starts_with("OK") { "accept" } else { "tree" };
             push("impl-violates-property", "accepted exactly when the grammar derives it, with the tree / fields the model's reference parser returns", format!("{} {} {}", prop, what, t.tag));
@@ -750,6 +757,27 @@ pub fn lit_text(v: &Value) -> String {
     }
 }
 
+/// texts that begin (or continue) with characters of 2, 3 and 4 bytes — among them the ones an editor may put in front
+/// of a file (U+FEFF) — followed by a syntax error at each of the first byte offsets: whatever a parser reports or
+/// slices relative to the text must fall on a character boundary
+pub fn prefixed_stream() -> Vec<TextCase> {
+    let prefixes = ["\u{feff}", "\u{feff}\u{feff}", "\u{e9}", "\u{a0}", "\u{2028}", "\u{1f600}", "\u{200b}", "\u{3000}", "\r", "\u{1}", "\u{feff} ", " \u{feff}"];
+    let bodies = [
+        "@: i3;\ni3", "i3) // name", "//n\u{e9}\ni)", "i3", "// n\ni3 )", ")", "@", "@k", "@k:", "@k: )", "@k: i1; )", "\"", "i", "//", "// n\u{e9}\n)", "\u{e9})", "a\u{e9}", "a \u{1f600} b",
+        "// \u{65e5}\u{672c}\n@k: \u{e9};\ni1", "//\u{1f600}\n(", "(\u{e9}", "[i1,\u{a0}\u{e9}]", "\"\u{e9}\" \u{e9}", "i1 +", "i1 + \u{feff}", "i1\u{feff}", "i1 \u{feff} + i2", "// n\n\u{feff}i1", "@k: \u{feff}i1;\ni2",
+    ];
+    let mut out = vec![];
+    for p in prefixes {
+        for b in bodies {
+            out.push(TextCase { text: format!("{}{}", p, b), tag: "prefixed" });
+        }
+    }
+    for b in bodies {
+        out.push(TextCase { text: b.to_string(), tag: "prefixed" });
+    }
+    out
+}
+
 pub fn run_c06(rep: &mut Report, driver: &str, workers: usize, thorough: bool, seed: u64) {
     let mut rng = Rng::new(seed);
     let mut texts = chars_stream(thorough);
@@ -759,13 +787,15 @@ pub fn run_c06(rep: &mut Report, driver: &str, workers: usize, thorough: bool, s
     texts.extend(mutation_stream(&mut rng, thorough));
     texts.extend(literal_stream(&mut rng, false));
     texts.extend(prec_stream());
+    texts.extend(prefixed_stream());
     let rule_texts: Vec<TextCase> = texts.iter().filter(|t| t.tag != "toks30" && t.tag != "toks9").step_by(3).map(|t| TextCase { text: format!("//n\n@k: {}; {}", t.text, t.text), tag: "as-rule" }).collect();
     let run = run_texts(texts, false, driver, workers);
-    judge_texts("C06", "expr-texts", "every string of length <= 3 (thorough 4) over the 24-character literal alphabet `ifd0189xboe.+-\"\\/nu{}_a ` and of length <= 2 (3) over 37 punctuation / whitespace / non-ASCII characters; every sequence of <= 3 (4) of 30 token representatives, <= 4 (5) of 17 and <= 5 (6) of the 9 compound-literal token classes; string literals mixing 1- to 4-byte characters with 16 valid / invalid escape forms at every distance 0..14 from either end; character-level mutations (delete / duplicate / insert junk / swap) of grammar-generated texts; out-of-range numerals in every numeric position, every escape form, control and non-ASCII characters; the precedence texts — through Expr::parse under catch_unwind", false, &run, "panic", rep);
+    judge_texts("C06", "expr-texts", "every string of length <= 3 (thorough 4) over the 24-character literal alphabet `ifd0189xboe.+-\"\\/nu{}_a ` and of length <= 2 (3) over 37 punctuation / whitespace / non-ASCII characters; every sequence of <= 3 (4) of 30 token representatives, <= 4 (5) of 17 and <= 5 (6) of the 9 compound-literal token classes; string literals mixing 1- to 4-byte characters with 16 valid / invalid escape forms at every distance 0..14 from either end; character-level mutations (delete / duplicate / insert junk / swap) of grammar-generated texts; out-of-range numerals in every numeric position, every escape form, control and non-ASCII characters; the precedence texts; texts that begin with 2- / 3- / 4-byte characters followed by an early syntax error — through Expr::parse under catch_unwind", false, &run, "panic", rep);
     let mut more = rule_stream(&mut rng, false);
     more.extend(rule_texts);
+    more.extend(prefixed_stream());
     let run2 = run_texts(more, true, driver, workers);
-    judge_texts("C06", "rule-texts", "generated rule texts and every third expression text embedded as metadata value and expression — through Rule::parse under catch_unwind", false, &run2, "panic", rep);
+    judge_texts("C06", "rule-texts", "generated rule texts, every third expression text embedded as metadata value and expression, and texts that begin with 2- / 3- / 4-byte characters (U+FEFF among them) followed by a syntax error at each of the first offsets — through Rule::parse under catch_unwind", false, &run2, "panic", rep);
 }
 
 pub fn run_c07(rep: &mut Report, driver: &str, workers: usize, thorough: bool, seed: u64) {
